@@ -179,12 +179,12 @@ def main() -> int:
     # ---- (b) print/parse
     sfam = families.simplify_families(ck.tier)
     bfam = families.boolean_families(ck.tier, alias_heavy=True)
-    step = 10 if ck.tier == 'quick' else 2
+    step = 10 if ck.tier == 'quick' else 1
     especs = families.slot_family() + families.call_shapes()
     for fam in (sfam, bfam):
         for k, v2 in fam.items():
             especs += v2[::step] if len(v2) > 300 else v2
-    especs += families.random_specs(ck.seed + 6, 1500 if ck.tier == 'quick' else 15000, 5)
+    especs += families.random_specs(ck.seed + 6, 1500 if ck.tier == 'quick' else 60000, 5)
     especs += [('lit', 1e400), ('lit', 1e-320), ('lit', 12345678901234567890), ('const', 'PI'), ('const', 'INF'), ('const', 'NAN'), ('const', 'E'),
                ('bin', '<', ('const', 'NAN'), ('f', 'x')), ('str', 'a b'), ('str', ''), ('str', 'q\\"q'), ('str', 'back\\\\slash'), ('bin', '=', ('f', 's'), ('str', 'not and or')),
                ('bin', '<', ('f', 'notify'), ('f', 'android')), ('bin', '<', ('fa', ('var', 'inner'), 'format'), ('f', 'Ex'))]
